@@ -41,6 +41,11 @@ pub struct Probes {
     /// ticks in which >= 2 custom-action states were released, or one was released while another
     /// was pressed (keyberon delivers at most one custom event per tick)
     pub custom_events_collided: u64,
+    /// dynamic macro replays started so far / at the time of the last input event: a macro whose
+    /// replay starts again and again without any input re-triggers itself
+    pub dyn_replay_starts: u64,
+    pub dyn_replay_starts_at_last_input: u64,
+    dyn_replay_prev: bool,
 }
 
 pub struct Stepper {
@@ -204,7 +209,11 @@ impl Stepper {
         }
         if self.k.dynamic_macro_replay_state.is_some() {
             p.dyn_replay_seen += 1;
+            if !p.dyn_replay_prev {
+                p.dyn_replay_starts += 1;
+            }
         }
+        p.dyn_replay_prev = self.k.dynamic_macro_replay_state.is_some();
         if self.k.dynamic_macro_record_state.is_some() {
             p.dyn_record_seen += 1;
         }
@@ -304,6 +313,7 @@ impl Stepper {
         self.trace.ins.push(InEv { t: self.now, op_idx });
         self.last_in = op_idx;
         self.ticks_since_in = 0;
+        self.probes.dyn_replay_starts_at_last_input = self.probes.dyn_replay_starts;
         if self.blocked {
             // woken from recv(): the loop reports the time spent blocked, handles the event, then
             // ticks once (owed to the following gap)
